@@ -177,3 +177,19 @@ Definition chk_route (c : bplan * list (nat * nat)) : bool :=
   let rt := route_sync (fst c) in
   forallb (fun e => match routed rt (fst e) with Some w => Nat.eqb w (snd e) | None => false end) (snd c).
 Definition classify_plan (c : bplan * xadj) : nat := kf_code (fst c) (snd c).
+
+(* ---------- the model's own plan, classified (statistics and contradiction detectors of harness/planner_b.py) ---------- *)
+Definition graph_adj (g : fgraph) : xadj := map (fun n => (fid n, fins n)) g.
+Definition modelB_code (c : bcase) : nat := kf_code (plan_B (bc_ord c) (bc_g c)) (graph_adj (bc_g c)).
+Definition modelB_choice (c : bcase) : nat := if kf_tfs_choice (bc_ord c) (bc_g c) then 1 else 0.
+(* theorems PlannerB_plan_struct / PlannerB_plan_req_covers *)
+Definition chkB_struct (c : bcase) : bool :=
+  let p := steps_of (plan_B (bc_ord c) (bc_g c)) in wf_struct p && validate_A p && req_covers p (graph_adj (bc_g c)).
+(* theorem PlannerB_choice_free_direct: where add_tfs has no choice, no transform step is missing or partial *)
+Definition chkB_choice_free (c : bcase) : bool :=
+  kf_tfs_choice (bc_ord c) (bc_g c)
+  || (negb (kf_tfs_missing (plan_B (bc_ord c) (bc_g c)) (graph_adj (bc_g c)))
+      && negb (kf_tfs_partial (plan_B (bc_ord c) (bc_g c)) (graph_adj (bc_g c)))).
+(* the plan-only substitute for the feature graph gives the same classification *)
+Definition chkB_plan_only (c : bcase) : bool :=
+  let p := plan_B (bc_ord c) (bc_g c) in Nat.eqb (kf_code p (graph_adj (bc_g c))) (kf_code p (adj_from_plan p)).
